@@ -27,9 +27,10 @@ def _jobs(tier):
     for n in range(0, nmax + 1):
         js.append(dict(name=f"decode[{n}]", fn="decode_formula", args=[n], collect_models=3, expect=["decode equals the positional formula"]))
         js.append(dict(name=f"decode-bytearray[{n}]", fn="decode_accepts_mutable", args=[n], collect_models=1))
-    for n in (1, 2, 3, 4):
-        js.append(dict(name=f"after_earlier_calls[{n}]", fn="after_earlier_calls", args=[n], collect_models=1,
-                       expect=["after earlier calls: decode equals the positional formula"]))
+    for n in (0, 1, 2, 3, 4, 5):
+        for n0 in (0, 1, 2, 3, 4, 5):
+            js.append(dict(name=f"after_earlier_calls[{n0} then {n}]", fn="after_earlier_calls", args=[n, n0], collect_models=1,
+                           expect=["after earlier calls: decode equals the positional formula"]))
     for n in range(4, nmax + 1):
         js.append(dict(name=f"tail[{n}]", fn="decode_ignores_tail", args=[n], collect_models=1))
     return js
